@@ -21,6 +21,12 @@ run = lambda cmd, **kw: subprocess.run(cmd, capture_output=True, text=True, **kw
 try:
     run(['git', '-C', '/repo', 'worktree', 'add', '-q', '--detach', wt, 'HEAD'])
     r = run(['git', '-C', wt, 'apply', os.path.abspath(a.patch)])
+    if r.returncode != 0:
+        # written against an older HEAD: fall back to a 3-way merge onto the current one
+        r = run(['git', '-C', wt, 'apply', '--3way', os.path.abspath(a.patch)])
+        res['threeway'] = True
+        if r.returncode == 0:
+            run(['git', '-C', wt, 'reset', '-q'])
     res['applies'] = r.returncode == 0
     if res['applies']:
         env = dict(os.environ, PYTHONPATH=wt, PYTHONDONTWRITEBYTECODE='1'); env.pop('BDCHT_CRYSP_VERIF', None)
